@@ -42,6 +42,14 @@ FAULTS = {
     "lookup-into-scalar": dict(content='{"data": 5}', lookup="data.x"),
     "lookup-through-list": dict(content='{"data": [{"x": {"a": 1}}]}', lookup="data.x"),
     "lookup-selects-scalar": dict(content='{"data": "str"}', lookup="data"),
+    "lookup-selects-null": dict(content='{"data": null}', lookup="data"),
+    "lookup-selects-zero": dict(content='{"data": {"x": 0}}', lookup="data.x"),
+    "lookup-selects-false": dict(content='{"data": false}', lookup="data"),
+    "lookup-selects-empty-string": dict(content='{"data": ""}', lookup="data"),
+    "top-level-null": dict(content="null"),
+    "top-level-false": dict(content="false"),
+    "top-level-empty-string": dict(content='""'),
+    "empty-yaml-document": dict(content="# only a comment\n", fmt="yaml"),
     "top-level-scalar": dict(content="42"),
     "list-of-scalars": dict(content="[1, 2, 3]"),
     "list-with-one-scalar": dict(content='[{"a": 1}, 7]'),
@@ -175,7 +183,7 @@ def main():
     t = tier()
     cases = make_cases(t, seed())
     v = Verdict(PROP, "fault_enumeration",
-                f"{len(FAULTS)} fault kinds (missing/empty/malformed JSON/YAML/INI file, 4 lookup faults, 3 non-object sample shapes, "
+                f"{len(FAULTS)} fault kinds (missing/empty/malformed JSON/YAML/INI file, lookup faults incl. lookups landing on falsy scalars, non-object sample shapes incl. falsy roots, "
                 "non-string YAML keys, bad merge policy/argument, framework/generator mismatches, unknown option/framework, generator not "
                 "importable, generator raising at field 1/3/5, bad generator kwarg, bad regex) x position of the faulty file among two good "
                 "ones (first/middle/last) x -o target pre-existing with sentinel bytes / absent / output to stdout; plus source-free "
